@@ -687,6 +687,11 @@ def hub_cases(rng, tier, extended=False):
     for kind in kinds:                               # degree crosses 2^7
         mesh = gen.gen_hub(rng, kind, rng.randint(129, 144))
         out.append({'mesh': mesh, 'queries': hub_queries(rng)})
+    # the same queries once more on ONE object (cached adjacency shared by the
+    # Laplacian / gradient / e2v / n-hop of a hub mesh)
+    qs = [q for q in hub_queries(rng) if not (q['kind'] == 'e2v' and q['self_loop'])]
+    rng.shuffle(qs)
+    out.append({'mesh': out[0]['mesh'], 'queries': qs, 'shared': True})
     wide = tier == 'thorough' or extended
     for kind in (kinds if wide else kinds[:1]):      # 2^8
         mesh = gen.gen_hub(rng, kind, rng.randint(257, 272))
